@@ -44,6 +44,7 @@ type vfC17Run struct {
 	mu     sync.Mutex
 	dials  []*vfC17DialRec
 	filter func(h *HostInfo) // optional hook called from the HostFilter
+	onDial func(ip string)   // optional hook called by the dialer before it connects (may park)
 	csc    *vfScope
 }
 
@@ -58,6 +59,12 @@ func (d *vfC17RunDialer) DialHost(ctx context.Context, host *HostInfo) (*DialedH
 	}
 	if err := ctx.Err(); err != nil {
 		return nil, err
+	}
+	r.mu.Lock()
+	hook := r.onDial
+	r.mu.Unlock()
+	if hook != nil {
+		hook(ip)
 	}
 	c, nc, err := n.Dial()
 	if err != nil {
@@ -414,7 +421,7 @@ func (r *vfC17Run) closeAndObserve(sched int, plan string, closers func()) vfC17
 		} else if r.sess.control != nil {
 			if ch := r.sess.control.getConn(); ch != nil && ch.conn != nil {
 				if mc, ok := ch.conn.conn.(*vfMemConn); ok && !mc.IsClosed() {
-					res.leak = "control-conn-open"
+					res.leak = "control-conn-installed-after-close"
 				}
 			}
 		}
@@ -679,8 +686,8 @@ func TestVfC17Sessions(t *testing.T) {
 				for _, r := range res.recs {
 					out.Write(r)
 				}
-				if res.hang {
-					anyHang = true
+				if res.hang || res.leak != "" {
+					anyHang = true // what a hanging Close or a leaked connection leaves behind is its consequence
 				}
 				if res.hang && !res.rescued {
 					hung = true
@@ -1168,6 +1175,150 @@ func vfC17ScenCloseBusyRefresherPending() vfC17ScenResult {
 	return res
 }
 
+// controlConn.reconnect racing Session.Close: reconnect passes its `closing` check, then Close runs
+// controlConn.close() (which closes the connection it knows) and waits for the busy ring refresher;
+// reconnect finishes dialling and installs a new control connection nobody closes any more.
+func vfC17ScenReconnectRacingClose() vfC17ScenResult {
+	res := vfC17ScenResult{Name: "reconnect-racing-close"}
+	r, err := vfC17NewRun(1, 2, 1, nil)
+	if err != nil {
+		res.Err = err.Error()
+		return res
+	}
+	s := r.sess
+	sc := vfNewScope()
+	marked := make(chan struct{})
+	var onceMarked sync.Once
+	sc.OnEvent = func(point string, obj interface{}, _ string, a int, err error) {
+		if point == "d_stop_marked" {
+			onceMarked.Do(func() { close(marked) })
+		}
+	}
+	sc.Bind(s.ringRefresher)
+	defer sc.Unbind(s.ringRefresher)
+	// keep the refresher busy so that Close waits in refreshDebouncer.stop (before it cancels the context)
+	parked := make(chan struct{})
+	release := make(chan struct{})
+	var once sync.Once
+	dialParked := make(chan struct{})
+	dialRelease := make(chan struct{})
+	var onceDial sync.Once
+	var armed int32
+	r.mu.Lock()
+	r.filter = func(h *HostInfo) {
+		if !vfC17OnFlusher() {
+			return
+		}
+		fire := false
+		once.Do(func() { fire = true })
+		if fire {
+			close(parked)
+			<-release
+		}
+	}
+	r.onDial = func(ip string) {
+		if atomic.LoadInt32(&armed) == 0 {
+			return
+		}
+		buf := make([]byte, 16384)
+		if !strings.Contains(string(buf[:runtime.Stack(buf, false)]), "controlConn).reconnect") {
+			return
+		}
+		fire := false
+		onceDial.Do(func() { fire = true })
+		if fire {
+			close(dialParked)
+			<-dialRelease
+		}
+	}
+	r.mu.Unlock()
+	cleanup := func() {
+		select {
+		case <-release:
+		default:
+			close(release)
+		}
+		select {
+		case <-dialRelease:
+		default:
+			close(dialRelease)
+		}
+	}
+	go s.refreshRing()
+	select {
+	case <-parked:
+	case <-time.After(2 * time.Second):
+		res.Err = "the refresh did not reach the host loop"
+		cleanup()
+		s.Close()
+		return res
+	}
+	atomic.StoreInt32(&armed, 1)
+	ch := s.control.getConn()
+	killed := false
+	for _, d := range r.liveNodeConns() {
+		if ch != nil && ch.conn != nil && net.Conn(d.mem) == ch.conn.conn {
+			d.nc.Close()
+			killed = true
+		}
+	}
+	if !killed {
+		res.Err = "control connection not found among the dialed connections"
+		cleanup()
+		s.Close()
+		return res
+	}
+	select {
+	case <-dialParked: // reconnect has passed its closing check and is dialling
+	case <-time.After(2 * time.Second):
+		res.Err = "reconnect did not start dialling"
+		cleanup()
+		s.Close()
+		return res
+	}
+	closed := make(chan struct{})
+	go func() { s.Close(); close(closed) }()
+	select {
+	case <-marked: // pools, control connection and event debouncers are closed; Close waits for the refresher
+	case <-time.After(2 * time.Second):
+		res.Err = "Close did not reach refreshDebouncer.stop"
+		cleanup()
+		return res
+	}
+	before := len(r.dials)
+	close(dialRelease)
+	// the new control connection is set up (or refused); then the refresh may finish
+	vfC17Poll(time.Second, func() bool {
+		ch := s.control.getConn()
+		r.mu.Lock()
+		n := len(r.dials)
+		r.mu.Unlock()
+		return n > before && ch != nil && ch.conn != nil && atomic.LoadInt32(&s.control.reconnecting) == 0
+	})
+	close(release)
+	select {
+	case <-closed:
+	case <-time.After(vfC17CloseWatchdog):
+		res.Viol = "session-close-hang:" + vfC17HangSig(vfGoroutineDump(), s)
+		res.What = "Session.Close did not return while a control-connection reconnect was in progress"
+		return res
+	}
+	vfC17Poll(2*time.Second, func() bool { return len(r.openConns()) == 0 })
+	open := r.openConns()
+	res.Obs = fmt.Sprintf("open connections after Close returned: %v (dialed %d)", open, len(r.dials))
+	if len(open) > 0 {
+		res.Viol = "conn-leak-after-close:control-conn-installed-after-close"
+		res.What = "a control connection installed by controlConn.reconnect after controlConn.close() stayed open after Session.Close " +
+			"returned (reconnect had passed its `closing` check before Close; its Conn.serve goroutine stays as well)"
+		r.mu.Lock()
+		for _, d := range r.dials {
+			d.mem.Close()
+		}
+		r.mu.Unlock()
+	}
+	return res
+}
+
 func TestVfC17Scenarios(t *testing.T) {
 	outPath := os.Getenv("VF_TRACES")
 	if outPath == "" {
@@ -1179,7 +1330,7 @@ func TestVfC17Scenarios(t *testing.T) {
 	}
 	defer out.Close()
 	fs := []func() vfC17ScenResult{vfC17ScenHeartbeatAfterClose, vfC17ScenEventStopTwice, vfC17ScenRefreshAfterStop,
-		vfC17ScenLatePool, vfC17ScenFlusherSelfWait, vfC17ScenCloseAfterRefresh, vfC17ScenCloseBusyRefresherPending}
+		vfC17ScenLatePool, vfC17ScenFlusherSelfWait, vfC17ScenCloseAfterRefresh, vfC17ScenCloseBusyRefresherPending, vfC17ScenReconnectRacingClose}
 	results := make([]vfC17ScenResult, len(fs))
 	var wg sync.WaitGroup
 	for i, f := range fs {
